@@ -628,7 +628,7 @@ func init() {
 		// pass 1: count slots per call
 		type counts struct{ args, results int }
 		cnt := make([]counts, len(calls))
-		var argPreserved, readOnly, streamedSlots int64
+		var argPreserved, readOnly, streamedSlots, optionChecks int64
 		for ci, cl := range calls {
 			w := world.New()
 			c17Setup(w)
@@ -753,6 +753,58 @@ func init() {
 				w.Close()
 			}
 		}
+		// option values are arguments too: an options object handed to a call comes back unchanged (and can be shared
+		// between calls), a pointer inside it is not kept
+		{
+			w := world.New()
+			c17Setup(w)
+			io := options.Index().SetUnique(false)
+			before := fmt.Sprintf("%+v name=%v", *io, io.Name)
+			_, e1 := w.C("d", "c").Indexes().CreateOne(w.Ctx, mongo.IndexModel{Keys: bD("o1", int32(1)), Options: io})
+			after := fmt.Sprintf("%+v name=%v", *io, io.Name)
+			_, e2 := w.C("d", "c").Indexes().CreateOne(w.Ctx, mongo.IndexModel{Keys: bD("o2", int32(1)), Options: io})
+			_, e3 := w.C("d", "c").Indexes().CreateMany(w.Ctx, []mongo.IndexModel{{Keys: bD("o3", int32(1)), Options: io}, {Keys: bD("o4", int32(1)), Options: io}})
+			if before != after || io.Name != nil {
+				r.Violation("argument-modified:Indexes.CreateOne:options", fmt.Sprintf("CreateOne changed the options object it was given: %s -> %s", before, after), map[string]interface{}{"call": "Indexes().CreateOne(options)"})
+			} else if e1 != nil || e2 != nil || e3 != nil {
+				r.Violation("argument-modified:Indexes.CreateOne:options", fmt.Sprintf("index options shared between calls: %v, %v, %v", e1, e2, e3), map[string]interface{}{"call": "Indexes().CreateOne(options)"})
+			}
+			uo := options.Update().SetUpsert(true).SetArrayFilters(options.ArrayFilters{Filters: []interface{}{bD("e", int32(1))}})
+			ub := fmt.Sprintf("%+v %v", *uo, *uo.Upsert)
+			_, _ = w.C("d", "c").UpdateOne(w.Ctx, bD("_id", int32(1)), bD("$set", bD("a.b.$[e]", int32(5))), uo)
+			if ua := fmt.Sprintf("%+v %v", *uo, *uo.Upsert); ua != ub {
+				r.Violation("argument-modified:UpdateOne:options", fmt.Sprintf("UpdateOne changed its options: %s -> %s", ub, ua), map[string]interface{}{"call": "UpdateOne(options)"})
+			}
+			// the start time of a change stream is a value, not a reference to the caller's variable
+			_, _ = w.C("d", "c").InsertOne(w.Ctx, bD("_id", "before-stream"))
+			var startAt primitive.Timestamp
+			if s0, err := w.C("d", "c").Watch(w.Ctx, bson.A{}); err == nil {
+				_, _ = w.C("d", "c").InsertOne(w.Ctx, bD("_id", "e1"))
+				if s0.TryNext(w.Ctx) {
+					var ev bson.M
+					_ = s0.Decode(&ev)
+					startAt, _ = ev["clusterTime"].(primitive.Timestamp)
+				}
+				_ = s0.Close(w.Ctx)
+			}
+			ts := startAt
+			if s, err := w.C("d", "c").Watch(w.Ctx, bson.A{}, options.ChangeStream().SetStartAtOperationTime(&ts)); err == nil && startAt.T != 0 {
+				_, _ = w.C("d", "c").InsertOne(w.Ctx, bD("_id", "e2"))
+				ts.T += 100000 // the caller reuses its variable
+				n := 0
+				for s.TryNext(w.Ctx) {
+					n++
+				}
+				if n != 2 {
+					r.Violation("aliasing:argument:Watch:start-time", fmt.Sprintf("a stream opened at the time of event e1 delivered %d events instead of 2 (e1, e2) after the caller had changed the timestamp variable it passed", n), map[string]interface{}{"call": "Watch(StartAtOperationTime)"})
+				}
+				_ = s.Close(w.Ctx)
+				optionChecks++
+			}
+			optionChecks += 2
+			w.Close()
+		}
+		r.Set("option_arguments_checked", optionChecks)
 		r.Set("slots_mutated_between_open_and_close_of_an_upload", streamedSlots)
 		var totalArgs, totalRes int64
 		var names []interface{}
